@@ -292,7 +292,9 @@ impl<'repo> Stack<'repo> {
 
     /// Return an error if the stack's recorded head differs from the branch's head.
     pub(crate) fn check_head_top_mismatch(&self) -> Result<()> {
-        if self.state.applied.is_empty() || self.is_head_top() {
+        // N.B. the recorded head follows the branch once external modifications have
+        // been logged, so it is the topmost patch that has to be compared.
+        if self.state.applied.is_empty() || self.state.top().id == self.branch_head.id {
             Ok(())
         } else {
             Err(anyhow!(
